@@ -137,6 +137,7 @@ def simulate_and_monitor(ctx, spec, case, monitors, nontrivial=None, key_extra='
         return None
     ctx.count('rejected_run_calls', getattr(b, 'rejected_runs', 0))
     ctx.count('live_quantities_converted_in_place_between_runs', getattr(b, 'reported', 0))
+    ctx.count('runs_issued_through_another_solver_object', getattr(b, 'solver_swaps', 0))
     ctx.count('resets_through_a_new_powertrain_object', getattr(b, 'new_powertrains', 0))
     ctx.count('bystander_model_operations', getattr(b, 'bystander_ops', 0))
     ctx.count('driven_part_mounted_on_a_second_motor', getattr(b, 'remounts', 0))
